@@ -566,6 +566,32 @@ def sql_query_cte(q):
     return "with " + ", ".join(f"{names[id(it)]} as ({sql_query(it[1])})" for it in items) + " " + body
 
 
+def sql_query_views(q, prefix="v"):
+    """The same query with its derived tables (at every depth of the FROM clauses) created as views; two derived
+    tables with the same text share one view: -> (CREATE VIEW statements in dependency order, query text)."""
+    creates, names = [], {}
+
+    def render(qq):
+        def frm(f):
+            if f[0] == "t":
+                return f"{f[1]} as {f[2]}"
+            if f[0] == "sub":
+                inner = render(f[1])
+                key = (inner, tuple(n for n, _ in f[3]))
+                if key not in names:
+                    names[key] = f"{prefix}{len(names) + 1}"
+                    creates.append(f"create view {names[key]}({', '.join(key[1])}) as {inner}")
+                return f"{names[key]} as {f[2]}"
+            _, jt, l, r, on = f
+            if jt == "cross":
+                return f"{frm(l)} cross join {frm(r)}"
+            kw = {"inner": "join", "left": "left join", "right": "right join", "full": "full join"}[jt]
+            return f"{frm(l)} {kw} {frm(r)} on {sql_expr(on)}"
+        body = sql_query(dict(qq, frm=("t", "__FROM__", "__F__")))
+        return body.replace("__FROM__ as __F__", frm(qq["frm"]))
+    return creates, render(q)
+
+
 def sql_query(q):
     s = "select " + ("distinct " if q["dist"] else "")
     s += ", ".join(f"{sql_expr(e)} as {a}" for e, a in q["sel"])
